@@ -308,6 +308,23 @@ def valLit (s : DS) : Val → String
     | none => "O?" ++ toString r.addr
   | v => match valTok v with | .lit t => t | _ => "?"
 
+/-- heap-changing op whose observation is `<ref> | <invocation log>`; `ordered = false` compares the
+log as a multiset (object iteration order) -/
+def doRefLog (what : String) (isObj : Bool) (r : Heap × Out Ref) (log : List MTok) (ordered : Bool) (obs : Obs) : M Unit := do
+  setHeap r.1
+  match r.2, obs with
+  | .panic k, _ => cmpOut what (.panic k) obs
+  | .ok ref, .panic k => cmpOut what (.ok [.ref isObj ref]) (.panic k)
+  | .ok ref, .ok ts =>
+    let hd := ts.takeWhile (· ≠ "|")
+    let lg := (ts.dropWhile (· ≠ "|")).drop 1
+    cmpToks what [.ref isObj ref] hd
+    if ordered then cmpToks (what ++ " invocations") log lg
+    else
+      let s ← get
+      let lits := log.map (fun t => match t with | .lit x => x | .ref o r => valLit s (if o then .obj r else .list r))
+      if multisetEq lits lg then pure () else fail s!"{what}: invocations differ as multisets: model {lits} observed {lg}"
+
 /-- make the model's list cell at `addr` follow the order the implementation used, if that is a
 permutation of the model's content (the association-list order stands for *one* iteration order) -/
 def adoptOrder (what : String) (addr : Nat) (obs : List Tok) : M Unit := do
@@ -485,43 +502,47 @@ def execOp (name : String) (recv : Tok) (args : List Tok) (obsS : String) : M Un
     | fn :: c =>
       let cv ← if fn == "const" then goVal1 c else pure GoVal.nil
       let f : Int → Val → GoVal := fun i v => fnApply fn cv (if name == "mapvalues" then none else some (.int i)) v
-      doRef name false (L.map h a f) obs
+      if name == "mapasync" then doRef name false (L.map h a f) obs
+      else
+        let log := if name == "map" then (L.forEach h a).flatMap (fun p => [MTok.lit (intTok p.1), valTok p.2])
+                   else (L.forEachValue h a).map valTok
+        doRefLog name false (L.map h a f) log true obs
     | _ => fail "protocol"
   | "mapk" =>
     match args with
     | k :: fn :: c =>
       let cv ← if fn == "const" then goVal1 c else pure GoVal.nil
-      doRef name false (L.mapK h a (← kindArg k) (fun v => fnApply fn cv none v)) obs
+      let kd ← kindArg k
+      doRefLog name false (L.mapK h a kd (fun v => fnApply fn cv none v)) ((L.forEachK h a kd).map valTok) true obs
     | _ => fail "protocol"
   | "reduce" =>
     let r := L.reduce h a (17 : Int) (fun acc v => wrap64 (wrap64 (acc * 31) + codeOf v))
-    cmpOut name (.ok [.lit (intTok r)]) obs
+    cmpOut name (.ok ([.lit (intTok r), .lit "|"] ++ (L.forEachValue h a).map valTok)) obs
   | "reducek" =>
     match args with
     | ["s"] =>
       let r := L.reduceK h a .string ("^".toList) (fun acc v => match v with | .str s => acc ++ ['|'] ++ s | _ => acc)
-      cmpOut name (.ok [.lit (strTok r)]) obs
+      cmpOut name (.ok ([.lit (strTok r), .lit "|"] ++ (L.forEachK h a .string).map valTok)) obs
     | ["i"] =>
       let r := L.reduceK h a .int (17 : Int) (fun acc v => match v with | .int i => wrap64 (wrap64 (acc * 31) + i) | _ => acc)
-      cmpOut name (.ok [.lit (intTok r)]) obs
+      cmpOut name (.ok ([.lit (intTok r), .lit "|"] ++ (L.forEachK h a .int).map valTok)) obs
     | ["f"] =>
       let half : F64 := ⟨0x3fe0000000000000⟩
       let r := L.reduceK h a .float F64.one (fun acc v => match v with | .float f => F64.add (F64.mul acc half) f | _ => acc)
-      cmpOut name (.ok [.lit (floatTok r)]) obs
+      cmpOut name (.ok ([.lit (floatTok r), .lit "|"] ++ (L.forEachK h a .float).map valTok)) obs
     | _ => fail "protocol"
   | "filter" =>
     match args with
     | [p] =>
       let r := L.filter h a (predApply p)
-      setHeap r.1
-      cmpOut name (.ok [.ref false r.2]) obs
+      doRefLog name false (r.1, .ok r.2) ((L.forEachValue h a).map valTok) true obs
     | _ => fail "protocol"
   | "filterk" =>
     match args with
     | [k, p] =>
-      let r := L.filterK h a (← kindArg k) (predApply p)
-      setHeap r.1
-      cmpOut name (.ok [.ref false r.2]) obs
+      let kd ← kindArg k
+      let r := L.filterK h a kd (predApply p)
+      doRefLog name false (r.1, .ok r.2) ((L.forEachK h a kd).map valTok) true obs
     | _ => fail "protocol"
   | "agg" =>
     let l := numsOf h a
@@ -645,13 +666,27 @@ def execOp (name : String) (recv : Tok) (args : List Tok) (obsS : String) : M Un
     | fn :: c =>
       let cv ← if fn == "const" then goVal1 c else pure GoVal.nil
       let f : Str → Val → GoVal := fun k v => fnApply fn cv (if name == "omapvalues" then none else some (.str k)) v
-      doRef name true (O.map h a f) obs
+      if name == "omapasync" then doRef name true (O.map h a f) obs
+      else if name == "omap" then
+        -- pairs "k<hex> value" compared as a multiset: join each pair into one literal
+        let s ← get
+        let pairs := (O.forEach h a).map (fun kv => MTok.lit ("k" ++ strToHex kv.1 ++ " " ++ valLit s kv.2))
+        match obs with
+        | .ok ts =>
+          let hd := ts.takeWhile (· ≠ "|")
+          let lg := (ts.dropWhile (· ≠ "|")).drop 1
+          doRefLog name true (O.map h a f) pairs false (.ok (hd ++ ["|"] ++ tokPairs lg))
+        | .panic k => doRefLog name true (O.map h a f) pairs false (.panic k)
+      else doRefLog name true (O.map h a f) ((O.forEachValue h a).map valTok) false obs
     | _ => fail "protocol"
   | "omapk" =>
     match args with
     | k :: fn :: c =>
       let cv ← if fn == "const" then goVal1 c else pure GoVal.nil
-      doRef name true (O.mapK h a (← kindArg k) (fun v => fnApply fn cv none v)) obs
+      let kd ← kindArg k
+      -- the object MapX variants assert on the stored item for containers, on getVal() for scalars
+      let visited := (h.fields a).filterMap (fun kv => L.sel h (L.viaGetValL kd) kd kv.2)
+      doRefLog name true (O.mapK h a kd (fun v => fnApply fn cv none v)) (visited.map valTok) false obs
     | _ => fail "protocol"
   -- ---------------- derived types
   | "derive" =>
